@@ -113,8 +113,10 @@ def acheck [BEq α] (N : Nat) (qs : List (List α)) (e : AEv α) (o : AOut α) :
               else []
     let v5 := if o.empty && !qq.isEmpty then ["array-not-exposed"] else []
     let v6 := if o.size > qq.length then ["array-size-optimistic"] else []
+    -- the requested depth is the depth (a power of two is demanded): a selected FIFO holding fewer items is not full (latency 0)
+    let v7 := if o.full && qp.length < N then ["capacity-below-request"] else []
     let qs1 := if yield then qs.modify e.popSel (·.drop 1) else qs
     let qs2 := if accept then qs1.modify e.pushSel (· ++ [e.data]) else qs1
-    (v1 ++ v2 ++ v3 ++ v4 ++ v5 ++ v6, qs2)
+    (v1 ++ v2 ++ v3 ++ v4 ++ v5 ++ v6 ++ v7, qs2)
 
 end Gatery.C15
